@@ -238,3 +238,76 @@ def build(lang, i):
     bar = ast.FunctionDeclaration('bar', [], R, ast.Block(body), ast.FunctionDeclaration.FUNCTION)
     c.add_func(G0, 'bar', bar)
     return ast.Program(c, lang)
+
+
+# ---- programs that share identifiers with a different status (C11: "after translating other programs") ------------
+
+def name_clash_programs(lang):
+    """-> {'A': Program, 'B': Program, 'C': Program}
+
+    A:  fun foo(): String; val v: String; open class K { fun bar(): String }; fun useA() uses foo(), v, K().bar()
+    B:  fun bar(): String; class K(val v: String) { fun foo(): String };      fun useB() uses K("s").foo(), .v, bar()
+    C:  fun useC() declares a nested function with four parameters and calls it
+    The same names are a top-level function in one program and a method in the other (foo, bar), a top-level
+    variable and a field (v); C needs a functional interface beyond the fixed ones (Java, Groovy)."""
+    import src.ir.ast as ast            # noqa
+    from src.ir import context as ctx
+    from src.ir import BUILTIN_FACTORIES
+    bt = BUILTIN_FACTORIES[lang]
+    STR = bt.get_string_type()
+    G0 = ast.GLOBAL_NAMESPACE
+    FN, M = ast.FunctionDeclaration.FUNCTION, ast.FunctionDeclaration.CLASS_METHOD
+
+    def s(x):
+        return ast.StringConstant(x)
+
+    # A
+    c = ctx.Context()
+    foo = ast.FunctionDeclaration('foo', [], STR, ast.Block([s('a')]), FN)
+    v = ast.VariableDeclaration('v', s('x'), is_final=True, var_type=STR)
+    bar = ast.FunctionDeclaration('bar', [], STR, ast.Block([s('k')]), M)
+    K = ast.ClassDeclaration('K', [], ast.ClassDeclaration.REGULAR, fields=[], functions=[bar], is_final=False)
+    k = ast.VariableDeclaration('k', ast.New(K.get_type(), []), is_final=True, var_type=K.get_type())
+    t = ast.VariableDeclaration('t', ast.FunctionCall('foo', [], receiver=None), is_final=True, var_type=STR)
+    u = ast.VariableDeclaration('u', ast.Variable('v'), is_final=True, var_type=STR)
+    use = ast.FunctionDeclaration('useA', [], STR, ast.Block([k, t, u, ast.FunctionCall('bar', [], receiver=ast.Variable('k'))]), FN)
+    c.add_func(G0, 'foo', foo)
+    c.add_var(G0, 'v', v)
+    c.add_class(G0, 'K', K)
+    c.add_func(G0 + ('K',), 'bar', bar)
+    c.add_func(G0, 'useA', use)
+    for d in (k, t, u):
+        c.add_var(G0 + ('useA',), d.name, d)
+    A = ast.Program(c, lang)
+
+    # B
+    c = ctx.Context()
+    bar = ast.FunctionDeclaration('bar', [], STR, ast.Block([s('b')]), FN)
+    fv = ast.FieldDeclaration('v', STR)
+    foo = ast.FunctionDeclaration('foo', [], STR, ast.Block([s('m')]), M)
+    K = ast.ClassDeclaration('K', [], ast.ClassDeclaration.REGULAR, fields=[fv], functions=[foo], is_final=True)
+    k = ast.VariableDeclaration('k', ast.New(K.get_type(), [s('s')]), is_final=True, var_type=K.get_type())
+    t = ast.VariableDeclaration('t', ast.FunctionCall('foo', [], receiver=ast.Variable('k')), is_final=True, var_type=STR)
+    u = ast.VariableDeclaration('u', ast.FieldAccess(ast.Variable('k'), 'v'), is_final=True, var_type=STR)
+    use = ast.FunctionDeclaration('useB', [], STR, ast.Block([k, t, u, ast.FunctionCall('bar', [], receiver=None)]), FN)
+    c.add_func(G0, 'bar', bar)
+    c.add_class(G0, 'K', K)
+    c.add_var(G0 + ('K',), 'v', fv)
+    c.add_func(G0 + ('K',), 'foo', foo)
+    c.add_func(G0, 'useB', use)
+    for d in (k, t, u):
+        c.add_var(G0 + ('useB',), d.name, d)
+    B = ast.Program(c, lang)
+
+    # C
+    c = ctx.Context()
+    ps = [ast.ParameterDeclaration(n, STR) for n in ('a', 'b', 'c', 'd')]
+    inner = ast.FunctionDeclaration('inner', ps, STR, ast.Block([ast.Variable('a')]), FN)
+    call = ast.FunctionCall('inner', [ast.CallArgument(s(x)) for x in '1234'], receiver=None)
+    use = ast.FunctionDeclaration('useC', [], STR, ast.Block([inner, call]), FN)
+    c.add_func(G0, 'useC', use)
+    c.add_func(G0 + ('useC',), 'inner', inner)
+    for p_ in ps:
+        c.add_var(G0 + ('useC', 'inner'), p_.name, p_)
+    C = ast.Program(c, lang)
+    return {'A': A, 'B': B, 'C': C}
